@@ -315,8 +315,7 @@ func genC03(g *Gen) {
 	forms := []string{"a + b", "a - b", "a * b", "a / b", "a % b", "a ^ b", "a AND b", "a OR b", "a XOR b", "a << b", "a >> b", "a = b", "a <> b",
 		"a > b", "a < b", "a >= b", "a <= b", "a IN b", "b IN a", "a NOT IN b", "b NOT IN a", "a LIKE b", "a NOT LIKE b", "a[b]", "a[b][c]", "-a", "NOT a", "a IS NULL",
 		"a IS NOT NULL", "-a[b]", "a / (b - b)", "a % c - a / b", "(a << b) >> c", "a[c] IN a", "'abc'[b]", "'é'[c]", "1 / b", "1 << b"}
-	for _, fn := range functions.NewDefaultFunctionCollection().GetAll() {
-		n := fn.Name()
+	for _, n := range defaultFnNames {
 		if strings.EqualFold(n, "null") {
 			continue
 		}
@@ -347,7 +346,9 @@ func genC03(g *Gen) {
 		for _, e2 := range lexprs {
 			for _, nm := range lnames[:8] {
 				for _, chg := range []string{"rmvar", "rmfn", "addvar", "addfn"} {
-					if (len(e1)+len(e2)+len(nm))%3 != 0 && !g.Thorough() {
+					// quick tier: every case in which the changed name occurs in one of the two expressions, a third of the others
+					occurs := strings.Contains(strings.ToLower(e1+" "+e2), strings.ToLower(nm))
+					if !occurs && (len(e1)+len(e2)+len(nm))%3 != 0 && !g.Thorough() {
 						continue
 					}
 					lrun("use, change a table, use again", "0|set|"+e1, "0|eval|", "1|set|"+e2, "0|"+chg+"|"+nm, "0|set|"+e2, "0|eval|", "1|eval|", "2|set|"+e2, "2|eval|")
@@ -527,14 +528,14 @@ func genC03(g *Gen) {
 				}
 			}
 		}
-		for _, fn := range functions.NewDefaultFunctionCollection().GetAll() {
+		for _, fnName := range defaultFnNames {
 			for k := 0; k <= 8; k++ {
 				for rep := 0; rep < g.Pick(3, 20); rep++ {
 					specs := make([]string, k)
 					for i := range specs {
 						specs[i] = c08generic[r.Intn(len(c08generic))]
 					}
-					run("functions x argument lists", Ev{"api": "function", "mgr": mgr, "name": fn.Name(), "vars": anyL(specs)})
+					run("functions x argument lists", Ev{"api": "function", "mgr": mgr, "name": fnName, "vars": anyL(specs)})
 				}
 			}
 		}
